@@ -238,4 +238,83 @@ theorem c11_account_complete (locate : PCell → Bytes → Option PCell) (p0 p1 
     checkAccountProof locate [p0, p1] blk addr state = true := by
   simp [checkAccountProof, h0, hhdr, hsh, hst, hs, h1, hl, hh]
 
+/-! ## binding: what an accepted hash pins down -/
+
+/-- SOUNDNESS CORE, proved part (level 0, trees without inner Merkle proof/update cells: ordinary cells, library
+cells, pruned branches of any mask).  Assume `H` has 32-byte output and does not collide between the level-0
+representations of the non-pruned cells of `p` and those of `t` (a LOCAL hypothesis on finitely many byte strings).
+If `p` and `t` have the same level-0 hash then `Agree0 H p t`: going down from the roots, corresponding cells have
+the same level-0 hash, and each pair is either (a pruned branch, the subtree whose hash it carries) or two cells of
+the same type with the same data bytes, the same bit-length descriptor, the same number of references and
+pairwise agreeing children.  So in a proof accepted for `hash t`, every unpruned cell is the cell of `t` at that
+position (any changed bit or reference breaks agreement), and a pruned branch stores exactly the hash of the
+subtree it replaces.
+
+FULL STATEMENT (not proved): the same for every level `l` and trees containing Merkle proof/update cells,
+`hashAt p l = hashAt t l → Agree l p t` with children compared at level `l + μ`.  Missing cases: a Merkle cell
+inside the tree (children enter at level 1, whose hash is chained over the level-0 hash, so the induction must carry
+all significant levels ≤ l at once), and therefore also levels l ≥ 1. -/
+theorem c11_binding_partial (H : Bytes → Bytes) (h32 : ∀ x, (H x).length = 32) (p t : Cell) (sp st : Spec.SInfo)
+    (mp : MFree p) (mt : MFree t) (hsp : specInfo H p = some sp) (hst : specInfo H t = some st)
+    (nocoll : ∀ x y, x ∈ reprs0 H p → y ∈ reprs0 H t → H x = H y → x = y)
+    (hh : sp.hashAt 0 = st.hashAt 0) : Agree0 H p t :=
+  binding0_aux H h32 p t sp st mp mt hsp hst nocoll hh
+
+/-- SOUNDNESS of `check_proof` (partial in the same sense as `c11_binding_partial`): if the object of the spec-valid
+proof tree `.mk kind bits [p]` passes `check_proof(·, h)`, then it is a well-formed Merkle proof cell naming `h`,
+and for EVERY tree `t` (without inner Merkle cells) whose level-0 hash is `h`, the proof body `p` agrees with `t`
+(`Agree0`) — under the local no-collision hypothesis.  Each listed rejection follows by contraposition: a changed
+bit/reference of an unpruned cell or a substituted pruned hash contradicts `Agree0`; a different expected hash and
+a non-proof cell are `c11_reject_wrong_hash`, `c11_reject_not_proof`. -/
+theorem c11_sound_partial (H : Bytes → Bytes) (h32 : ∀ x, (H x).length = 32) (kind : Int) (bits : Bits) (p t : Cell)
+    (c : PCell) (h : Bytes) (sp st : Spec.SInfo)
+    (wf : TreeWF H (.mk kind bits [p])) (hc : PCell.ofCell H (.mk kind bits [p]) = some c)
+    (hacc : checkProof c h = true)
+    (mp : MFree p) (mt : MFree t) (hsp : specInfo H p = some sp) (hst : specInfo H t = some st) (ht : st.hashAt 0 = h)
+    (nocoll : ∀ x y, x ∈ reprs0 H p → y ∈ reprs0 H t → H x = H y → x = y) :
+    c.info.kind = kMerkleProof ∧ pySlice c.data 1 33 = h ∧ Agree0 H p t := by
+  obtain ⟨hk, hs, _, r, d, hr, hh, _, _⟩ := c11_sound_shape c h hacc
+  refine ⟨hk, hs, ?_⟩
+  -- the child object is the object of `p` and reports the spec hash of `p`
+  have hinfo := ofCell_info H (.mk kind bits [p])
+  rw [hc] at hinfo
+  obtain ⟨rs, hrs, hc', _⟩ := ofCell_of_info H kind bits [p] c.info (by simpa using hinfo.symm)
+  rw [hc] at hc'
+  obtain ⟨r', hr', hrp⟩ := ofCells_singleton H p rs hrs
+  have hcr : c.refs = rs := by
+    have := Option.some.inj hc'
+    rw [this]; rfl
+  rw [hr, hr'] at hcr
+  cases hcr
+  have wfp : TreeWF H p := by rw [TreeWF] at wf; exact wf.1.1
+  obtain ⟨ip, sp', hip, hsp', hag⟩ := tree_agrees H p wfp
+  rw [hsp] at hsp'; cases hsp'
+  have hri : r.info = ip := by
+    have := ofCell_info H p
+    rw [hrp, hip] at this
+    simpa using this
+  rw [hri, (hag.2 0).1] at hh
+  simp only [Option.some.injEq] at hh
+  exact c11_binding_partial H h32 p t sp st mp mt hsp hst nocoll (hh.trans ht.symm)
+
+/-! Non-vacuity of the binding hypotheses: a toy hash with 32-byte output that is injective on the representations
+at hand (it returns the first 32 bytes, zero padded), a two-cell tree against itself. -/
+def toyH : Bytes → Bytes := fun x => (x ++ List.replicate 32 0).take 32
+def leafA : Cell := .mk (-1) [true, false] []
+def treeA : Cell := .mk (-1) [true] [leafA]
+
+example : (∀ x, (toyH x).length = 32) ∧ MFree treeA ∧ (∃ s, specInfo toyH treeA = some s) ∧
+    (∀ x y, x ∈ reprs0 toyH treeA → y ∈ reprs0 toyH treeA → toyH x = toyH y → x = y) := by
+  refine ⟨by intro x; simp [toyH], by simp [treeA, leafA, MFree, MFrees], by simp [treeA, leafA, specInfo, specInfos, kindOf], ?_⟩
+  have hr : reprs0 toyH treeA = [repr0 .ordinary [true] [Spec.node toyH .ordinary [true, false] []], repr0 .ordinary [true, false] []] := by
+    simp [treeA, leafA, reprs0, reprs0s, specInfos, specInfo, kindOf]
+  rw [hr]
+  intro x y hx hy
+  simp only [List.mem_cons, List.mem_nil_iff, or_false] at hx hy
+  rcases hx with rfl | rfl <;> rcases hy with rfl | rfl <;> intro he
+  · rfl
+  · exact absurd he (by decide +kernel)
+  · exact absurd he (by decide +kernel)
+  · rfl
+
 end TonVerif.Properties.C11
